@@ -115,8 +115,14 @@ def preflight():
 class Opaque:
     """stands in for the pyproj CRS object: only equality is observable (class id)"""
 
-    def __init__(self, cls):
-        self.cls = cls
+    def __init__(self, cls, e70=None):
+        self.cls, self.e70 = cls, e70
+
+    def to_epsg(self, *a, **kw):
+        """what the projection library's code lookup answers (None: no code)"""
+        if self.e70 is None:
+            raise symx.Unsupported("to_epsg on a tag without a lookup answer")
+        return None if bool(self.e70 == 0) else self.e70
 
     def __eq__(self, o):
         if isinstance(o, Opaque):
@@ -152,10 +158,16 @@ class SymStr:
 _WKT = {}
 
 
-def _real_crs(cls, epsg):
-    """replay: class parity picks the base CRS, code 0 means 'spelled as WKT'"""
+_CUSTOM = ["+proj=laea +lat_0=10 +lon_0=20 +x_0=0 +y_0=0 +ellps=GRS80 +units=m +no_defs", "+proj=sinu +lon_0=0 +x_0=0 +y_0=0 +R=6371007.181 +units=m +no_defs"]
+
+
+def _real_crs(cls, epsg, e70=1):
+    """replay: class parity picks the base CRS, code 0 means 'spelled as WKT'; a tag whose code
+    lookup answers nothing maps onto a custom CRS without an EPSG code"""
     from odc.geo.crs import CRS
 
+    if e70 == 0 and epsg == 0:
+        return CRS(_CUSTOM[cls % 2])
     base = 4326 if cls % 2 == 1 else 3857
     if epsg != 0:
         return CRS(f"epsg:{base}")
@@ -169,17 +181,18 @@ class Tag:
         self.none = Bool(f"{name}_none") if allow_none else False
         self.cls = Int(f"{name}_class", 1, 4)
         self.epsg = Int(f"{name}_epsg", 0)
+        self.e70 = Int(f"{name}_lookup", 0)  # what a code lookup in the projection library answers (0: nothing)
         self.sid = Int(f"{name}_str", 1)
         self.is_none = bool(self.none)  # forks
         if self.is_none:
             self.crs = None
         elif symx.concrete_mode():
-            self.crs = _real_crs(self.cls, self.epsg)
+            self.crs = _real_crs(self.cls, self.epsg, self.e70)
         else:
             from odc.geo.crs import CRS
 
             c = CRS.__new__(CRS)
-            c._crs = Opaque(self.cls)
+            c._crs = Opaque(self.cls, self.e70)
             c._epsg = self.epsg
             c._str = SymStr(self.sid)
             self.crs = c
@@ -189,7 +202,11 @@ def axioms(tags):
     if symx.concrete_mode():
         # replay maps (class parity, coded?) onto real CRS objects; codes/strings are not used
         return
+    for t in tags:
+        if not t.is_none:
+            assume(Implies(t.epsg != 0, t.e70 == t.epsg))
     for a, b in itertools.combinations([t for t in tags if not t.is_none], 2):
+        assume(Implies(a.cls == b.cls, a.e70 == b.e70))
         assume(Implies(And(a.epsg != 0, a.epsg == b.epsg), a.cls == b.cls))
         assume(Implies(And(a.cls == b.cls, a.epsg != 0, b.epsg != 0), a.epsg == b.epsg))
         assume(Implies(a.sid == b.sid, And(a.cls == b.cls, a.epsg == b.epsg)))
